@@ -249,7 +249,7 @@ func generate(p *Prog, prop string, ff *FindingsFile, out *CheckOutcome) []*Obli
 	var jobs []job
 	for k, cs := range p.db.Funcs {
 		for _, fc := range cs {
-			if fc.Trusted || fc.NoBody {
+			if fc.Trusted || (fc.NoBody && len(fc.Asserts) == 0) {
 				continue
 			}
 			if hasProp(fc.Props, prop) || clauseHasProp(fc, prop) {
@@ -268,6 +268,7 @@ func generate(p *Prog, prop string, ff *FindingsFile, out *CheckOutcome) []*Obli
 		}
 		g := NewGen(p)
 		g.prop = prop
+		g.onlyAsserts = fc.NoBody // an ASSUMED (`nobody`) contract may still carry anchored asserts: only those are verified
 		g.regions = map[string]string{}
 		for _, f := range ff.Findings {
 			if f.Property == prop && f.Region != "" {
